@@ -36,7 +36,7 @@ fn probe_one(m: &HistModel, st: &St, i: usize, proto: u16, id: u16, other_id: u1
     let pn = if proto == 9 { "v9" } else { "ipfix" };
     // the other id counts as known only if data for it can actually be decoded (a V9 definition without fields cannot)
     let decodable = |t: Option<&RefTpl>| match t {
-        Some(RefTpl::Plain(f)) => f.iter().map(|x| x.len as usize).sum::<usize>() > 0,
+        Some(RefTpl::Plain(f)) => (1..=12).contains(&f.iter().map(|x| x.len as usize).sum::<usize>()), // one record fits the 12-byte probe body
         Some(_) => true,
         None => false,
     };
